@@ -563,17 +563,23 @@ func (fc *fctx) genStmts(n int) ([]*Stmt, bool) {
 		case c < 91 && fc.nested > 0 && !noJump:
 			out = append(out, &Stmt{Op: "expr", E: &Expr{Op: "panic", Typ: tNever}})
 			return out, true
-		case c < 97 && fc.nested == 0: // resource life cycle at the top level of the function body
+		case c < 94 && fc.nested == 0: // resource life cycle at the top level of the function body
 			out = append(out, fc.genResourceStmt()...)
-		default: // call statement
+		default: // call statement / variable initialised by a call
 			for j := fc.fi + 1; j < len(g.p.Funs); j++ {
-				if g.kind[j] == "" {
+				if g.kind[j] == "" && g.r.Chance(2, 3) {
 					fn := g.p.Funs[j]
 					es := make([]*Expr, len(fn.Params))
 					for i, pt := range fn.Params {
 						es[i] = fc.genSub(pt, 2)
 					}
-					out = append(out, &Stmt{Op: "expr", E: &Expr{Op: "call", X: j, Es: es, Typ: fn.Ret}})
+					call := &Expr{Op: "call", X: j, Es: es, Typ: fn.Ret}
+					if fn.Ret.K != kVoid && g.r.Chance(2, 3) {
+						v := fc.push(fn.Ret)
+						out = append(out, &Stmt{Op: "let", E: call, V: v})
+					} else {
+						out = append(out, &Stmt{Op: "expr", E: call})
+					}
 					break
 				}
 			}
@@ -745,6 +751,9 @@ func genProgram(r *lib.Rng) *Prog {
 		for j := 0; j < np; j++ {
 			if i == 0 {
 				fn.Params = append(fn.Params, lib.Pick(r, mainParamPool))
+			} else if r.Chance(2, 5) {
+				// optional parameters: the argument transfer has to box
+				fn.Params = append(fn.Params, tOpt(g.randType(0)))
 			} else {
 				fn.Params = append(fn.Params, g.randType(1))
 			}
